@@ -13,6 +13,7 @@ import C07 as q07
 
 WHAT_OWN = "a pool handed out an object that is currently allocated to another holder (ownership map over the implementation log)"
 WHAT_AVAIL = "objects deallocated into the pool are not all obtainable again at quiescence, or the pool yields an object it should not contain (ownership map over the implementation log + drain by the main thread)"
+WHAT_CRASH = "the harness process running the real pool died (abort / fault, e.g. glibc double free detection) on this program and schedule"
 WHAT_HANG = "an allocate/deallocate of the real pool does not return within 20000 scheduled steps of a fair (round-robin) schedule; the model terminates on the same program and schedule"
 
 
@@ -54,6 +55,8 @@ def impl_bad(case, i, m=None):
     bad = monitor(case, i)
     if bad is not None:
         return bad
+    if i["end"] == "crash":
+        return (WHAT_CRASH, {"exit_status": i.get("rc"), "output_tail": i.get("output_tail"), "events_before": [l for l in i["lines"] if " ev " in l][-6:]})
     if i["end"] in ("hang", "fuel") and (m is None or m["end"] == "finished"):
         return (WHAT_HANG, {"impl_end": i["end"], "last_events": [l for l in i["lines"] if " ev " in l][-4:]})
     return None
@@ -92,7 +95,7 @@ def run_batch(ctx, model, impl, cases, tag):
 
 def minimise(ctx, impl, case, what):
     best = case
-    budget = 6 if what == WHAT_HANG else 25
+    budget = 6 if what in (WHAT_HANG, WHAT_CRASH) else 25
     improved = True
     while improved and budget > 0:
         improved = False
